@@ -139,6 +139,7 @@ def _run(case, loop, S, RPCSession, MessageSession, RSTransport, USTransport, Se
     group.spawn = spawn
 
     orig_close = s.close
+    at_return = []
 
     async def close(**kw):
         me = asyncio.current_task()
@@ -149,7 +150,12 @@ def _run(case, loop, S, RPCSession, MessageSession, RSTransport, USTransport, Se
         closer_of.setdefault(me, []).append(c)
         closer_tasks[c] = False
         try:
-            return await orig_close(**kw)
+            r = await orig_close(**kw)
+            # the instant close() returns: the loss has been dealt with completely
+            pm = getattr(p, '_process_messages_task', None)
+            at_return.append({'closer': c, 'from_handler': bool(owner), 'hooks': len(hooks), 'pm_done': pm is None or pm.done(),
+                              'members_running': sum(1 for mt in members if not mt.done() and mt is not me), 't': loop.time()})
+            return r
         finally:
             closer_of[me].pop()
             closer_tasks[c] = True
@@ -351,7 +357,7 @@ def _run(case, loop, S, RPCSession, MessageSession, RSTransport, USTransport, Se
     if not faulted:
         return {'skipped': True}
     left = [x for x in asyncio.all_tasks(loop) if not x.done()]
-    res = {'trace': trace, 'idle': idle, 'hooks': len(hooks), 'hook_time': hooks[0] if hooks else None,
+    res = {'at_close_return': at_return, 'trace': trace, 'idle': idle, 'hooks': len(hooks), 'hook_time': hooks[0] if hooks else None,
            'lost_time': lost_time[0], 'fault_time': fault_time[0], 'pm_done_at_fault': pm_done_at_fault[0],
            'left': len(left), 'lost': t.lost, 'closers_done': all(c.done() for c in closers), 'pm_done': pm_task.done(),
            'outcomes': outcomes, 'started': started, 'time': loop.time(), 'ticks': n,
@@ -473,6 +479,10 @@ class C08(Prop):
                     and not any(l[0] == 'hdone' and l[2] for ls, _ in obs['trace'] for l in ls):
                 return 'the connection was never lost although it was dropped / closed / aborted'
             return None
+        for r in obs.get('at_close_return', ()):
+            if not r['from_handler'] and (r['hooks'] < 1 or not r['pm_done'] or r['members_running']):
+                return (f"close() returned (t={r['t']}) before the loss had been dealt with: connection-lost hook run {r['hooks']} times, "
+                        f"message processing {'finished' if r['pm_done'] else 'still running'}, {r['members_running']} handler task(s) still running")
         if obs['hooks'] != 1:
             return f"the connection-lost hook ran {obs['hooks']} times"
         if not obs['idle']:
